@@ -9,6 +9,7 @@ import (
 	"fmt"
 	"math"
 	"math/big"
+	"sort"
 	"strconv"
 	"strings"
 
@@ -305,10 +306,50 @@ func t1wLine(o *suiteOut, font *type1.Font, fmtName string) {
 	o.emit(line, res, true)
 }
 
+// editInPlace changes a font through the pointers a caller holds: coordinates shifted, a stem value changed, one
+// command replaced by another of the same kind, a width changed - all without changing any count
+func editInPlace(font *type1.Font, step int) {
+	var names []string
+	for n := range font.Glyphs {
+		names = append(names, n)
+	}
+	sort.Strings(names)
+	for gi, n := range names {
+		g := font.Glyphs[n]
+		switch (gi + step) % 4 {
+		case 0:
+			for i := range g.Cmds {
+				for k := range g.Cmds[i].Args {
+					g.Cmds[i].Args[k] += float64(3 + step)
+				}
+			}
+		case 1:
+			if len(g.HStem) >= 2 {
+				g.HStem[0] -= 2
+			} else if len(g.Cmds) > 0 && len(g.Cmds[0].Args) > 0 {
+				g.Cmds[0].Args[0] += 11
+			}
+		case 2:
+			g.WidthX += 1
+		}
+	}
+}
+
 func t1writeCase(o *suiteOut, line string) {
 	f := strings.Split(line, " ")
 	font, integer, format := fontFromCase(f)
 	t1wLine(o, font, f[3])
+	if f[2] == "int" && len(font.Glyphs) <= 60 {
+		// history: write, edit the font in place, write again (and once more): each output is that of the font as it
+		// is now, nothing is remembered from the earlier write (the model is stateless)
+		snap := deepCopyFont(font)
+		editInPlace(font, 0)
+		t1wLine(o, font, f[3])
+		editInPlace(font, 1)
+		t1wLine(o, font, f[3])
+		o.count("writes after in-place edits")
+		*font = *snap
+	}
 	if f[3] == "pdf" {
 		var buf bytes.Buffer
 		var l1, l2 int
@@ -560,4 +601,20 @@ func init() {
 	replayers["t1rt"] = t1rtCase
 	replayers["t1write"] = t1writeCase
 	replayers["t1closure"] = t1closureCase
+}
+
+func deepCopyFont(f *type1.Font) *type1.Font {
+	c := *f
+	c.Glyphs = map[string]*type1.Glyph{}
+	for n, g := range f.Glyphs {
+		gg := *g
+		gg.Cmds = make([]type1.GlyphOp, len(g.Cmds))
+		for i, cmd := range g.Cmds {
+			gg.Cmds[i] = type1.GlyphOp{Op: cmd.Op, Args: append([]float64{}, cmd.Args...)}
+		}
+		gg.HStem = append(g.HStem[:0:0], g.HStem...)
+		gg.VStem = append(g.VStem[:0:0], g.VStem...)
+		c.Glyphs[n] = &gg
+	}
+	return &c
 }
